@@ -375,7 +375,7 @@ fn validate_node(d: &ArrayData, path: String) -> V {
             let kb = c.typed(0, w, align, 0)?;
             let dict = &d.child_data()[0];
             if dict.data_type() != v.as_ref() {
-                return c.err("dictionary values type mismatch");
+                return c.err(format!("dictionary values type mismatch (values child is {})", dict.data_type()));
             }
             let signed = matches!(k.as_ref(), D::Int8 | D::Int16 | D::Int32 | D::Int64);
             for i in 0..len {
